@@ -170,8 +170,12 @@ def replay(b: dict) -> dict:
         if ev["ret"] != pre_spec:
             nontrivial.append(json.dumps([pre_spec, ev["op"], ev["args"]], sort_keys=True))
         try:
+            import c05
+            snap = c05.snapshot(obj)
             res = apply(obj, ev)
             ret = bind.alpha(from_big(res) if big else res)
+            if c05.snapshot(obj) != snap:
+                ret = {"kind": "operand-changed"}
         except bind.Inexact as e:
             ret = {"kind": "inexact", "msg": str(e)[:200]}
             res = None
